@@ -88,7 +88,7 @@ impl Envelope {
 
     /// If the envelope's subject is an assertion return it, else return `None`.
     pub fn as_assertion(&self) -> Option<Self> {
-        match self.case() {
+        match self.subject().case() {
             EnvelopeCase::Assertion(_) => Some(self.clone()),
             _ => None,
         }
@@ -101,7 +101,7 @@ impl Envelope {
 
     /// The envelope's predicate, or `None` if the envelope is not an assertion.
     pub fn as_predicate(&self) -> Option<Self> {
-        match self.case() {
+        match self.subject().case() {
             EnvelopeCase::Assertion(assertion) => Some(assertion.predicate()),
             _ => None,
         }
@@ -114,7 +114,7 @@ impl Envelope {
 
     /// The envelope's object, or `None` if the envelope is not an assertion.
     pub fn as_object(&self) -> Option<Self> {
-        match self.case() {
+        match self.subject().case() {
             EnvelopeCase::Assertion(assertion) => Some(assertion.object()),
             _ => None,
         }
